@@ -2,6 +2,7 @@ import BevySyncModel.Proofs.CompBound
 import BevySyncModel.Proofs.AssetBound
 import BevySyncModel.Proofs.CompPot
 import BevySyncModel.Proofs.CompLive
+import BevySyncModel.Proofs.CompPotG
 import BevySyncModel.Proofs.AssetPot
 import BevySyncModel.Proofs.MatBound
 import BevySyncModel.Proofs.MatLive
@@ -29,7 +30,7 @@ theorem C09_code_paths_tie :
     Generated.assetTokensCounted = true ∧ Generated.assetProcessFilesToken = true ∧
     Generated.assetReactDebounceServeAnnounce = true ∧ Generated.assetMaterialInlinePath = true ∧
     Generated.entDeleteHandlersNamedEntityOnly = true ∧ Generated.entSpawnHandlers = true ∧
-    Generated.entRemovedDetectors = true := by
+    Generated.entRemovedDetectors = true ∧ Generated.applyComparesByPartialEq = true := by
   decide
 
 /-! ## global bounds: any writers, any schedule -/
@@ -54,6 +55,27 @@ theorem C09_comp_calm_silent (pt : V → V → V) (s : State V) (as : List (Act 
   have h1 := comp_traffic_bounded (ra := ra) pt s as hn hc
   rw [h0] at h1
   simpa using h1
+
+/-- **values that are not equal to themselves.** The bound does not depend on how a received value is compared with the
+one already held: with `same` any relation whatsoever — not reflexive (a component containing a NaN float), constantly
+false, … — a schedule with writes by any peers still sends at most `N + 1` messages per application write. (`stepA` is
+the slice's `step` with the apply function as a parameter: `C09_stepA_is_step`.) -/
+theorem C09_comp_traffic_bounded_any_equality (same : V → V → Bool) (pt : V → V → V) (s : State V) (as : List (Act V))
+    (hn : (s.clients.map (·.id)).Nodup) (hc : Comp.Calm s) :
+    (runA ra (applyS same pt) s as).sent ≤ s.sent + (s.clients.length + 1) * wops as :=
+  traffic_bounded_any_equality same pt s as hn hc
+
+theorem C09_stepA_is_step (pt : V → V → V) (s : State V) (a : Act V) :
+    step ra false pt s a = stepA ra (apply false pt) s a :=
+  step_eq_stepA pt s a
+
+/-- non-vacuity: a value that never compares equal (`same := fun _ _ => false`) written once and then received again and
+again by everybody — it is applied every time, and nobody announces it -/
+example :
+    let s0 : State Nat := { clients := [{ id := 1 }, { id := 2 }] }
+    let as : List (Act Nat) := [.writeH 7, .detectH, .reactH, .pollC 1 1, .flushC 1, .detectC 1, .reactC 1, .pollC 2 1, .flushC 2,
+      .detectC 2, .reactC 2, .pollH 1 5, .pollH 2 5, .flushH, .detectH, .reactH]
+    (runA false (applyS (fun _ _ => false) replace) s0 as).sent = 2 := by decide
 
 /-- **message flow stops within a bounded number of frames.** From *any* state of the component slice — reachable or not,
 whatever is queued, in flight or half applied, any number of clients, both relay modes, any patch function — three fair
